@@ -81,7 +81,19 @@ def cases(tier):
             c = {"kind": "multi", "n": n, "factors": fac, "_weight": 9 ** n * 3}
             c["_split"] = (4 if len(fac) == 1 else 5) if n == 2 else 8
             out.append(c)
+    if q:
+        # the part of the four-reversal multi-point family in which a hysteresis is closed by the deferred last reversal
+        out.append({"kind": "multi", "n": 4, "factors": [0.5], "only": "deferred_closing", "_weight": 9 ** 3, "_split": 5})
     return out
+
+
+_AXIOMS = {}
+
+
+def _tid(v):
+    """identity of a plain (non-quotient) symbolic value's term, None if there is none"""
+    e = getattr(v, "_e", None)
+    return e.get_id() if e is not None else None
 
 
 class _MonotoneUF:
@@ -99,12 +111,20 @@ class _MonotoneUF:
             return r
         ax = [r > 0]
         for oargs, orr in self.apps:
-            le = sym_and(*[a <= b for a, b in zip(oargs, args)])
-            ge = sym_and(*[a >= b for a, b in zip(oargs, args)])
-            lt = sym_or(*[a < b for a, b in zip(oargs, args)])
-            gt = sym_or(*[a > b for a, b in zip(oargs, args)])
-            ax.append(sym_or(sym_not(sym_and(le, lt)), orr < r))
-            ax.append(sym_or(sym_not(sym_and(ge, gt)), orr > r))
+            # the same pairs recur in every re-execution of the path prefix: memoise on the hash-consed terms
+            key = tuple(_tid(a) for a in oargs) + tuple(_tid(a) for a in args) + (_tid(orr), _tid(r))
+            hit = _AXIOMS.get(key) if None not in key else None
+            if hit is None:
+                le = sym_and(*[a <= b for a, b in zip(oargs, args)])
+                ge = sym_and(*[a >= b for a, b in zip(oargs, args)])
+                lt = sym_or(*[a < b for a, b in zip(oargs, args)])
+                gt = sym_or(*[a > b for a, b in zip(oargs, args)])
+                hit = (sym_and(sym_or(sym_not(sym_and(le, lt)), orr < r), sym_or(sym_not(sym_and(ge, gt)), orr > r)), oargs, args, orr, r)
+                if None not in key:
+                    if len(_AXIOMS) > 200000:
+                        _AXIOMS.clear()
+                    _AXIOMS[key] = hit
+            ax.append(hit[0])
         self.ctx.define(sym_and(*ax))
         self.apps.append((args, r))
         return r
@@ -356,6 +376,11 @@ def run(ctx, case):
             ctx.assume(False)
     law = StubLaw(ctx)
     dt = object if ctx.sym else np.float64
+    if case.get("only") == "deferred_closing":
+        # sub-family (one order type and its mirror image): the last sample is a reversal of the repeated sequence only,
+        # is therefore left to the second pass, and closes the inner hysteresis when it arrives there
+        a, b, c, d = xs
+        ctx.assume(sym_or(sym_and(a > c, c > b, b > d, d > 0), sym_and(a < c, c < b, b < d, d < 0)))
     passes, deferred = _passes(ctx, xs)
     rows, strains = hcm_oracle(law, passes)
 
